@@ -1110,7 +1110,15 @@ def m_alloc(E, path, a):
     raise Panic('alloc', 'heap allocation: call to ' + path)
 
 
+def m_from_utf8_lossy(E, path, a):
+    """String::from_utf8_lossy borrows when the bytes are well-formed UTF-8 and allocates otherwise"""
+    r = m_from_utf8(E, path, a)
+    if r.var == 'Ok': return EnumV('Cow', 'Borrowed', 0, [a[0]])
+    raise Panic('alloc', 'heap allocation: String::from_utf8_lossy on malformed UTF-8 builds an owned String')
+
+
+MODELS.insert(0, (r'from_utf8_lossy$', m_from_utf8_lossy))
 ALLOC_PATTERN = r"alloc::|__rust_alloc|(^|::|<)vec::|(^|::|<)Vec(::|<)|(^|::|<)String(::|<)|(^|::)string::|(^|::)boxed::|(^|::|<)Box(::|<)|collections::|to_vec$|to_owned$|to_string$|into_boxed|fmt::format$|::format$|(^|::)Rc(::|<)|(^|::)Arc(::|<)"
-MODELS.insert(0, (ALLOC_PATTERN, m_alloc))
+MODELS.insert(1, (ALLOC_PATTERN, m_alloc))
 
 MODEL_NAMES = sorted(set(p for p, _ in MODELS))
